@@ -118,14 +118,12 @@ func (e *Engine) verifyFunction(fc *FuncContract) *FuncResult {
 
 // canary: on the first returning path "ensures false" must not be provable.
 func (vf *VerifyFunc) canary(st *State) {
-	n := 0
-	for _, o := range vf.obligs {
-		if o.Kind == "canary" {
-			n++
-		}
-	}
-	if n >= 6 {
-		return // a handful of returning paths is enough: the canary passes when any one of them is feasible
+	// canaries on a spread of returning paths (first few, powers of two, every 37th): the check passes when
+	// any one of them is feasible and cannot prove false
+	vf.returns++
+	n := vf.returns
+	if !(n <= 4 || n&(n-1) == 0 || n%37 == 0) {
+		return
 	}
 	o := &Oblig{Func: shortFuncName(vf.key), Kind: "canary", Label: "ensures-false-must-fail", Src: "ensures false (must NOT be provable)", Goal: "false", ExpectFail: true, Trail: strings.Join(st.trail, " ")}
 	o.Script = st.script("false")
